@@ -38,7 +38,7 @@ type c02Case struct {
 // Eval!ExtText: the external properties every Eval case runs with
 var evalExt = map[string]string{"p1": "x", "p2": " y ", "p4": ""}
 
-var xpTable = []string{"", "a", "b", "*", "a/b", "..", "../a", "../b"} // Eval!XP
+var xpTable = []string{"", "a", "b", "*", "a/b", "..", "../a", "../b", "a[1]", "a[2]", "a[last()]", "*[last()]", "*[2]", "a/b[last()]"} // Eval!XP
 
 func (t *dtree) kids(p int) []int {
 	var out []int
@@ -492,6 +492,9 @@ func init() { cmds["c02-stream"] = c02Stream }
 
 // ---- B2: random larger declaration trees and records; TLC evaluates Ref (and Impl) on the logged case
 
+// xpaths of random fields: none, the plain ones, and the positional ones (indices into xpTable / Eval!XP)
+var fieldXPs = []int{0, 1, 2, 3, 4, 1, 2, 8, 9, 10, 11, 12, 13}
+
 func genDeclTree(r interface{ Intn(int) int }, m int) dtree {
 	t := dtree{}
 	add := func(par int, kind string, xp int, ty string, notrim, keep bool, lit string) int {
@@ -529,7 +532,7 @@ func genDeclTree(r interface{ Intn(int) int }, m int) dtree {
 					c := add(p, "concat", r.Intn(2), "none", false, false, "")
 					grow(c, depth+1)
 				} else {
-					add(p, "field", r.Intn(5), ty, r.Intn(5) == 0, r.Intn(3) == 0, "")
+					add(p, "field", fieldXPs[r.Intn(len(fieldXPs))], ty, r.Intn(5) == 0, r.Intn(3) == 0, "")
 				}
 			case choice == 4 && pk != "concat":
 				// a field with a computed xpath; the computation is a constant naming a child (or nothing)
@@ -537,7 +540,7 @@ func genDeclTree(r interface{ Intn(int) int }, m int) dtree {
 				c := add(p, "dynfield", 0, dtyp, false, r.Intn(3) == 0, "")
 				add(c, "const", 0, "none", false, false, []string{"a", "b", ""}[r.Intn(3)])
 			case choice < 6:
-				c := add(p, "object", []int{0, 1, 2, 3}[r.Intn(4)], "none", false, r.Intn(4) == 0, "")
+				c := add(p, "object", []int{0, 1, 2, 3, 8, 9, 10, 11, 12}[r.Intn(9)], "none", false, r.Intn(4) == 0, "")
 				grow(c, depth+1)
 			case choice < 8 && pk != "array":
 				c := add(p, "array", 0, "none", false, r.Intn(4) == 0, "")
